@@ -733,6 +733,34 @@ impl GlobalInferenceCtx<'_> {
         ExprIsConst::Const
     }
 
+    /// A place reached through `pointer` (by `^`, or by the automatic dereference of `.field` and
+    /// `[index]`) can only be mutated if the *type* of the pointer is `^mut`, wherever the pointer
+    /// value came from (a call, a copy of another pointer, an optional that was unwrapped, ...).
+    /// `get_mutability` traces where a pointer was created, which only gives better diagnostics.
+    fn through_pointer(
+        &self,
+        pointer: Idx<Expr>,
+        traced: ExprMutability,
+        auto_deref: bool,
+    ) -> ExprMutability {
+        if !matches!(traced, ExprMutability::Mutable) {
+            return traced;
+        }
+
+        let mut ty = self.tys[self.loc][pointer];
+        while let Some((mutable, sub_ty)) = ty.as_pointer() {
+            if !mutable {
+                return ExprMutability::ImmutableRef(self.bodies.range_for_expr(pointer));
+            }
+            if !auto_deref {
+                break;
+            }
+            ty = sub_ty;
+        }
+
+        traced
+    }
+
     /// `deref` allows certain expressions to be mutable
     /// only if they are being mutated through a deref
     fn get_mutability(&self, expr: Idx<Expr>, assignment: bool, deref: bool) -> ExprMutability {
@@ -747,12 +775,18 @@ impl GlobalInferenceCtx<'_> {
                 // ),
                 _ => ExprMutability::ImmutableRef(self.bodies.range_for_expr(expr)),
             },
-            Expr::Deref { pointer } => self.get_mutability(*pointer, assignment, true),
-            Expr::Index { source: array, .. } => self.get_mutability(
-                *array,
-                assignment,
-                deref || self.tys[self.loc][*array].is_pointer(),
-            ),
+            Expr::Deref { pointer } => {
+                let traced = self.get_mutability(*pointer, assignment, true);
+                self.through_pointer(*pointer, traced, false)
+            }
+            Expr::Index { source: array, .. } => {
+                let traced = self.get_mutability(
+                    *array,
+                    assignment,
+                    deref || self.tys[self.loc][*array].is_pointer(),
+                );
+                self.through_pointer(*array, traced, true)
+            }
             Expr::Block {
                 tail_expr: Some(tail_expr),
                 ..
@@ -840,11 +874,14 @@ impl GlobalInferenceCtx<'_> {
                             ExprMutability::ImmutableRef(field.range)
                         }
                     }
-                    _ => self.get_mutability(
-                        *previous,
-                        assignment,
-                        deref || previous_ty.is_pointer(),
-                    ),
+                    _ => {
+                        let traced = self.get_mutability(
+                            *previous,
+                            assignment,
+                            deref || previous_ty.is_pointer(),
+                        );
+                        self.through_pointer(*previous, traced, true)
+                    }
                 }
             }
             Expr::Call { .. } if deref => ExprMutability::Mutable,
